@@ -84,6 +84,8 @@ pub struct Analysis {
     pub op_subid: BTreeMap<usize, u32>,
     pub skipped: usize,
     pub raw_wire: Vec<Vec<u8>>,
+    pub id_violations: Vec<(String, String)>,
+    pub id_history: Option<(u32, u32, usize)>,
 }
 
 impl Analysis {
@@ -114,6 +116,8 @@ impl Analysis {
         let mut settle_overrun = false;
         let mut finish_seq = events.len();
         let mut skipped = 0;
+        let mut id_violations = Vec::new();
+        let mut id_history = None;
         // delivered marks per connection: (upto, seq)
         let mut delivered: Vec<Vec<(usize, usize)>> = vec![Vec::new(); w.pipes.len()];
         let mut op_polls: BTreeMap<usize, usize> = BTreeMap::new();
@@ -125,14 +129,14 @@ impl Analysis {
                     let n = op_polls.entry(*i).or_insert(0);
                     *n += 1;
                     if *n == 1 {
-                        ops.get_mut(i).unwrap().first_poll = Some(seq);
+                        if let Some(o) = ops.get_mut(i) { o.first_poll = Some(seq); }
                     }
                 }
                 Ev::PollEnd { task, res } => {
                     if let PollRes::Panicked(m) = res {
                         panics.push((seq, *task, m.clone()));
                         if let TaskRef::Op(i) = task {
-                            ops.get_mut(i).unwrap().panicked = Some(m.clone());
+                            if let Some(o) = ops.get_mut(i) { o.panicked = Some(m.clone()); }
                         }
                         if *task == TaskRef::Ctx {
                             ctx_gone.get_or_insert(seq);
@@ -140,7 +144,7 @@ impl Analysis {
                     }
                     if let (TaskRef::Op(i), PollRes::Ready) = (task, res) {
                         if op_polls.get(i) == Some(&1) {
-                            ops.get_mut(i).unwrap().first_poll_ready = true;
+                            if let Some(o) = ops.get_mut(i) { o.first_poll_ready = true; }
                         }
                     }
                 }
@@ -150,7 +154,7 @@ impl Analysis {
                         ctx_gone.get_or_insert(seq);
                         ctx_dropped.get_or_insert(seq);
                     }
-                    TaskRef::Op(i) => ops.get_mut(i).unwrap().cancelled = Some(seq),
+                    TaskRef::Op(i) => { if let Some(o) = ops.get_mut(i) { o.cancelled = Some(seq); } }
                     TaskRef::Consumer(s) => streams.entry(*s).or_default().dropped = Some(seq),
                 },
                 Ev::CtxEnded => {
@@ -168,13 +172,15 @@ impl Analysis {
                 Ev::AuthorizeReturned { conn, out, .. } => conns[*conn].authorize_returned.push((seq, out.clone())),
                 Ev::RunStarted { conn } => conns[*conn].run_started = Some(seq),
                 Ev::RunReturned { conn, out } => conns[*conn].run_returned = Some((seq, out.clone())),
-                Ev::OpReturned { op, out } => ops.get_mut(op).unwrap().returned.push((seq, out.clone())),
+                Ev::OpReturned { op, out } => { if let Some(o) = ops.get_mut(op) { o.returned.push((seq, out.clone())); } }
                 Ev::StreamOpened { sub } => streams.entry(*sub).or_default().opened = Some(seq),
                 Ev::StreamItem { sub, msg } => streams.entry(*sub).or_default().items.push((seq, msg.clone())),
                 Ev::StreamEnded { sub } => streams.entry(*sub).or_default().ended = Some(seq),
                 Ev::Stall { what, .. } => stalls.push((seq, what.clone())),
                 Ev::SweepProgress { task, what } => sweep_progress.push((seq, *task, what.clone())),
                 Ev::SettleOverrun => settle_overrun = true,
+                Ev::IdViolation { class, what } => id_violations.push((class.clone(), what.clone())),
+                Ev::IdHistoryDone { ops, wraps, max_outstanding } => id_history = Some((*ops, *wraps, *max_outstanding)),
                 _ => {}
             }
         }
@@ -216,6 +222,8 @@ impl Analysis {
             op_subid: w.op_subid.clone(),
             skipped,
             raw_wire: w.pipes.iter().map(|p| p.borrow().wire.clone()).collect(),
+            id_violations,
+            id_history,
         }
     }
 
